@@ -176,6 +176,16 @@ def oracle(o):
     #     constructed on the already pruned layers must report the very same costs
     def same_float(a, b):
         return a == b or (a != a and b != b)
+    for rec in o['respec'].get('inplace', []):
+        if 'exc' in rec:
+            out.append(('cost-raises-after-inplace-update-of-the-assigned-dictionary:' + rec['step'], '%s: metrics %s: %s' % (rec['step'], rec['binding'], rec['exc'])))
+            continue
+        n = rec['spec']
+        ep = o['exp_plain'][n]
+        if rec['disc'] != ep:
+            explained = bool(deg) and rec['disc'] == o['exp_plain_generic'][n]
+            key = ('dw-degenerate-1to1:' + n) if explained else ('cost-after-inplace-update-differs-from-exported:%s:%s' % (rec['step'], n))
+            out.append((key, "%s: get_cost('%s') (bound to %s) = %r discrete, exported network from scratch %r" % (rec['step'], rec['metric'], n, rec['disc'], ep)))
     phases = [('respecified-' + ph, o['respec'][ph]) for ph in ('same', 'switched', 'back')] + ([('rewrapped', o['rewrap'])] if 'rewrap' in o else [])
     for label, obs in phases:
         for n, val in obs['disc'].items():
@@ -218,7 +228,7 @@ def run(ctx):
     ctx.rule = ('grammar architectures (gen_arch productions + `layer invoked twice` with equal / different output sizes at the two call sites; 1-D causal and 2-D) under PIT; '
                 'cost = one of / a dictionary of params, params_no_bias, ops, ops_no_bias, gap8_latency (2-D); full_cost and discrete_cost-at-construction random; optionally the stem '
                 'excluded by name; channel masks adversarial / dyadic / minimal / one-dead on every trainable alpha (shared maskers once), a binarized (receptive field, dilation) pattern per '
-                'searchable Conv1d; after the masks are set one random trainability switch (nothing / train_net_only / train_nas_only / train_net_and_nas / train_features, train_rf, train_dilation off / all on again) before EVERY cost observation, re-specification, re-wrap and export; non-trivial = at least one layer pruned; distinct = (architecture, options, style); plus masker-level continuous k_eff cases')
+                'searchable Conv1d; after the masks are set the specification is re-assigned (same object, new object, dict <-> single, a user dictionary updated in place: name rebound / added / deleted, then the same object assigned again) and one random trainability switch (nothing / train_net_only / train_nas_only / train_net_and_nas / train_features, train_rf, train_dilation off / all on again) before EVERY cost observation, re-specification, re-wrap and export; non-trivial = at least one layer pruned; distinct = (architecture, options, style); plus masker-level continuous k_eff cases')
     # ---- (a) masker level: continuous effective kernel size
     Kmax = 12 if ctx.quick else 64
     kcases = [{'K': K, 'd0': 1, 'beta': [1.0] * K, 'gamma': [1.0] * pm.glen(K), 'alpha': [1.0, 1.0], 'style': 'open'} for K in range(1, Kmax + 1)]
@@ -323,6 +333,9 @@ def run(ctx):
                         ctx.corr += 1
                         if o['respec']['switched']['disc'].get(n) != disc_n:
                             diff['disc-after-switched:' + n] = (o['respec']['switched']['disc'].get(n), str(disc_n))
+                        for rec in o['respec'].get('inplace', []):
+                            if rec.get('spec') == n and rec['disc'] != disc_n:
+                                diff['disc-after-inplace-%s:%s' % (rec['step'], n)] = (rec['disc'], str(disc_n))
                         if o['exp_plain'][n] != pexp_n:
                             diff['exported-from-scratch:' + n] = (o['exp_plain'][n], str(pexp_n))
                 for n in o['names']:
@@ -336,6 +349,13 @@ def run(ctx):
                             diff['disc-after-%s:%s' % (label, n)] = (obs['disc'][n], str(disc))
                     if o['exp_plain'][n] != pexp:
                         diff['exported-from-scratch:' + n] = (o['exp_plain'][n], str(pexp))
+                    for rec in o['respec'].get('inplace', []):
+                        if rec.get('spec') == n:
+                            ctx.corr += 1
+                            if rec['disc'] != disc:
+                                diff['disc-after-inplace-%s:%s' % (rec['step'], n)] = (rec['disc'], str(disc))
+                            if o['style'] != 'adv' and rec['cont'] == rec['cont'] and abs(rec['cont']) < 1e12 and not close(rec['cont'], cont, REL_CONT):
+                                diff['cont-after-inplace-%s:%s' % (rec['step'], n)] = (rec['cont'], str(cont))
                     if o['orig_plain'][n] != porig or o['open']['disc'][n] != porig:
                         diff['original:' + n] = (o['orig_plain'][n], o['open']['disc'][n], str(porig))
                     if not close(o['open']['cont'][n], opencont, REL_CONT):
